@@ -25,11 +25,14 @@ func (s *DiscoveryService) FindServers(sc *uasc.SecureChannel, r ua.Request, req
 		return nil, err
 	}
 
+	servers := []*ua.ApplicationDescription{}
+	if endpoints := s.srv.Endpoints(); len(endpoints) > 0 {
+		servers = append(servers, endpoints[0].Server)
+	}
+
 	response := &ua.FindServersResponse{
 		ResponseHeader: responseHeader(req.RequestHeader.RequestHandle, ua.StatusOK),
-		Servers: []*ua.ApplicationDescription{
-			s.srv.Endpoints()[0].Server,
-		},
+		Servers:        servers,
 	}
 
 	return response, nil
